@@ -4,6 +4,9 @@ M=${MREPO:-/tmp/mrepo}; B=${MBUILD:-/tmp/vt/build}; V=$(cd "$(dirname "$0")/.." 
 [ "$MREPO_LOCKED" = 1 ] || { export MREPO_LOCKED=1; exec flock $M.lock "$0" "$@"; }
 P=$1; PATCH=$2; shift 2
 REV=""; if [ "$1" = "-R" ]; then REV="-R"; shift; fi
-rm -rf $M; rsync -a --exclude target --exclude .git /repo/ $M/
+# sync the scratch copy WITHOUT deleting it, and give every file whose content changed (e.g. the previous run's patch being reverted)
+# a fresh mtime: cargo's fingerprints are mtime based, and rsync -a would restore the OLD mtime, leaving the previous change compiled in
+rm -rf $B/target-native $B/target-kani   # never reuse compiled crates across different source states (cargo's mtime fingerprints are not reliable here)
+mkdir -p $M; rsync -a --checksum --delete --exclude target --exclude .git --itemize-changes /repo/ $M/ | awk '$1 ~ /^>f/ {print $2}' | (cd $M && xargs -r touch)
 (cd $M && patch -p1 $REV -s < $PATCH) || { echo "PATCH FAILED"; exit 3; }
 cd $V && VERIF_REPO=$M VERIF_BUILD=$B ./check $P --no-evidence "$@" 2>&1 | grep -v "^  site" | cut -c1-300
